@@ -67,7 +67,8 @@ pub fn sanitize_target(t: &str) -> String {
 fn plan() -> impl Strategy<Value = Plan> {
     (
         0u8..5,
-        0u8..5,
+        // 7 helper processes: indices 5 and 6 share the executable of 0 and 1 but have another command line
+        prop_oneof![5 => 0u8..5, 3 => Just(0u8), 3 => Just(5u8), 1 => Just(1u8), 1 => Just(6u8)],
         prop_oneof![5 => Just(DestSel::Imds), 3 => Just(DestSel::WireServer), 2 => Just(DestSel::GaPlugin)],
         gen::sel(gen::REQ_METHODS),
         gen::gurl_no_traversal(),
@@ -93,7 +94,7 @@ pub fn strategy() -> impl Strategy<Value = Case> {
         .prop_map(|(ws, imds, hostga, plans)| Case { ws, imds, hostga, plans })
 }
 
-pub const RULE: &str = "generator: one rule set (or none) per endpoint with unique names, each in a generated mode; a history of 1-7 request plans, each = caller (uid from the generated passwd, helper process; elevated for WireServer/HostGAPlugin so that denials come from the rules) x method x URL (mostly bound to the destination's rule set, no duplicate query keys) repeated 1-11 times, sequentially or concurrently on separate connections. oracle: per request - enforce+deny => 403 and zero upstream bytes; audit+deny => relayed to the recorded destination with status 200; disabled/allowed => relayed; after the history the reference multiset denials[(user, destination ip, port, executable, command line, '403 Forbidden')] equals get_all_failed_connection_summary() (keys and counts) and the failedAuthenticateSummary of the status.json written by a real ProxyAgentStatusTask; one audit-denied request per case is re-sent with the rule set disabled and the two upstream requests must be equal except for the date value and MAC. non-trivial: history with >= 2 identical denials and denials from >= 2 callers in audit or enforce mode; distinct by hash of the case.";
+pub const RULE: &str = "generator: one rule set (or none) per endpoint with unique names, each in a generated mode; a history of 1-7 request plans, each = caller (uid from the generated passwd, helper process; elevated for WireServer/HostGAPlugin so that denials come from the rules) (two pairs of helper processes share an executable and differ only in their command line) x method x URL (mostly bound to the destination's rule set, no duplicate query keys) repeated 1-11 times, sequentially or concurrently on separate connections. oracle: per request - enforce+deny => 403 and zero upstream bytes; audit+deny => relayed to the recorded destination with status 200; disabled/allowed => relayed; after the history the reference multiset denials[(user, destination ip, port, executable, command line, '403 Forbidden')] equals get_all_failed_connection_summary() (keys and counts) and the failedAuthenticateSummary of the status.json written by a real ProxyAgentStatusTask; one audit-denied request per case is re-sent with the rule set disabled and the two upstream requests must be equal except for the date value and MAC. non-trivial: history with >= 2 identical denials and denials from >= 2 callers in audit or enforce mode; distinct by hash of the case.";
 
 type Key = (String, String, u16, String, String, String);
 
